@@ -28,7 +28,7 @@ def parse_results(out):
         rows = []
         depth = 0
         cur = None
-        for tok in re.finditer(r"\[|\]|\(\s*(-?\d+)\s*,\s*(\d+)\s*\)", txt.replace("%Z", "").replace("%positive", "")):
+        for tok in re.finditer(r"\[|\]|\(\s*(-?\d+)\s*,\s*(\d+)\s*\)", re.sub(r"\((-\d+)\)", r"\1", txt.replace("%Z", "").replace("%positive", ""))):
             t = tok.group(0)
             if t == "[":
                 depth += 1
